@@ -23,11 +23,11 @@ func init() {
 	register(&Check{
 		ID: "C06", Level: "exploration", Configs: []string{"clean"},
 		Run:         runC06,
-		QuickRuns:   250_000,
+		QuickRuns:   150_000,
 		ThoroughSec: 600,
 		Rule: "one run = one packetizer (MTU in [64,65535] biased 64/100/1200/1500, fixed sequencer start biased to 65535-k or random sequencer through the random seam, stub payloader " +
 			"returning drawn fragment lists incl. none and fragments of exactly MTU-12, or each real payloader behind a recording proxy) driven through 1-40 operations among Packetize, " +
-			"SkipSamples, GeneratePadding, EnableAbsSendTime(0..255, mostly 0..14) at simulated instants (clock jumps from microseconds to hours, epochs biased to 64 s NTP wraps); fingerprint = " +
+			"SkipSamples, GeneratePadding, EnableAbsSendTime(0..255, mostly 0..14) at simulated instants (clock jumps from microseconds to hours, backward steps of the wall clock, epochs biased to 64 s NTP wraps), with every returned packet retained and re-serialised after later calls; fingerprint = " +
 			"hash(payloader kind, mtu class, abs-send-time, per-op (kind, #packets class, wrap flags) truncated to 14); non-trivial = a sequence or timestamp wrap, a multi-packet train, " +
 			"padding packets, or abs-send-time was exercised",
 		Real: []string{"rtp.NewPacketizer", "rtp.Packetizer.Packetize", "rtp.Packetizer.SkipSamples", "rtp.Packetizer.GeneratePadding", "rtp.Packetizer.EnableAbsSendTime",
@@ -171,8 +171,15 @@ func runC06(c *core.Ctx) {
 		return
 	}
 	var clockReads []time.Time
+	var skew int64 // wall-clock steps (NTP adjustments): the sender's clock is simulated time plus a skew that may go backwards
+	type keptPacket struct {
+		p    *rtp.Packet
+		wire []byte
+		call int
+	}
+	var kept []keptPacket // packets returned by earlier calls, as a sender's retransmission buffer holds them
 	if !rtp.VerifSetPacketizerClock(pk, func() time.Time {
-		now := epoch.Add(time.Duration(c.Now))
+		now := epoch.Add(time.Duration(c.Now + skew))
 		clockReads = append(clockReads, now)
 		return now
 	}) {
@@ -333,6 +340,9 @@ func runC06(c *core.Ctx) {
 				if !ok {
 					return
 				}
+				if len(kept) < 400 {
+					kept = append(kept, keptPacket{p: p, wire: b, call: k})
+				}
 				if allFit && len(b) > mtu {
 					what := "packet"
 					if wantExt {
@@ -417,6 +427,9 @@ func runC06(c *core.Ctx) {
 				if !ok {
 					return
 				}
+				if len(kept) < 400 {
+					kept = append(kept, keptPacket{p: p, wire: b, call: k})
+				}
 				r, okp := parseRTP(b)
 				if !okp || !r.padding || len(r.payload) != 0 || r.padSize != len(b)-r.hdrLen || r.version != 2 || r.padSize == 0 {
 					c.Violate("padding", "C06/padding-packet/not-padding-only", "padding packet serialises to %d bytes that an RFC 3550 reader sees as: well-formed=%v P=%v payload=%d padding=%d header=%d", len(b), okp, r.padding, len(r.payload), r.padSize, r.hdrLen)
@@ -450,6 +463,29 @@ func runC06(c *core.Ctx) {
 			absID = id
 			fp = append(fp, 4<<8|b2u(id != 0))
 		}
+		// packets handed out by earlier calls stay what they were (a sender keeps them for retransmission)
+		if t.Chance(1, 4) || k == nops-1 {
+			for _, kp := range kept {
+				var b []byte
+				var err error
+				if c.Guard("rtp.Packet.Marshal", func() { b, err = kp.p.Marshal() }) {
+					return
+				}
+				if err != nil || !bytes.Equal(b, kp.wire) {
+					c.Violate("train", "C06/returned-packet-changed-by-later-call", "a packet returned by call %d serialises differently after call %d (err %v)", kp.call, k, err)
+					return
+				}
+			}
+		}
+		// the wall clock may be stepped, backwards too (clock skew and jumps)
+		if t.Chance(1, 8) {
+			skew -= []int64{40_000, 1_000_000, 1_000_000_000, 70_000_000_000, 3_815}[t.Intn(5)]
+			if epoch.Add(time.Duration(c.Now+skew)).Unix() < 1 {
+				skew = 0
+			}
+			c.Fault("clock_step_back")
+			c.Logf("clock stepped back, skew now %d ns", skew)
+		}
 		// the clock moves: microseconds to hours, sometimes exactly onto the next 64 s boundary
 		var adv int64
 		switch t.Weighted(4, 2, 1, 1) {
@@ -461,7 +497,7 @@ func runC06(c *core.Ctx) {
 			adv = int64(t.Intn(7200)) * 1_000_000_000
 			c.Fault("clock_jump")
 		case 3:
-			now := epoch.Add(time.Duration(c.Now))
+			now := epoch.Add(time.Duration(c.Now + skew))
 			ntpSec := now.Unix() + 2208988800
 			adv = (64-ntpSec%64)*1_000_000_000 - int64(now.Nanosecond()) + int64(t.Range(-3, 3))*3815
 			if adv < 0 {
